@@ -15,10 +15,12 @@
  */
 #pragma once
 
+#include <unifex/get_stop_token.hpp>
 #include <unifex/manual_lifetime.hpp>
 #include <unifex/receiver_concepts.hpp>
 #include <unifex/scheduler_concepts.hpp>
 #include <unifex/type_traits.hpp>
+#include <unifex/unstoppable_token.hpp>
 
 #include <unifex/detail/prologue.hpp>
 
@@ -69,8 +71,18 @@ private:
       unifex::set_done(std::move(outer_.get_receiver()));
     }
 
+    // The completion being forwarded has already happened (e.g. the lock has
+    // been handed over, the payload has been accepted); the reschedule onto
+    // the receiver's scheduler must not be cancellable, otherwise a late stop
+    // request would turn the forwarded set_value into set_done.
+    friend unstoppable_token
+    tag_invoke(tag_t<get_stop_token>, const receiver&) noexcept {
+      return {};
+    }
+
     template(typename CPO)                       //
-        (requires is_receiver_query_cpo_v<CPO>)  //
+        (requires is_receiver_query_cpo_v<CPO> AND
+             (!same_as<CPO, tag_t<get_stop_token>>))  //
         friend auto tag_invoke(CPO cpo, const receiver& r) noexcept(
             std::is_nothrow_invocable_v<CPO, const FinalReceiver&>)
             -> std::invoke_result_t<CPO, const FinalReceiver&> {
